@@ -46,6 +46,10 @@ T10 == { <<SDef("FNA", <<X>>, Bin("add", Bin("mul", X, LI(2)), Y))>>,
          <<SDef("FNA", <<XP>>, Bin("mul", XP, LI(3)))>>,
          <<SDef("FNA", <<X>>, Bin("add", FA(<<X>>), LI(1)))>>,       \* runaway recursion
          <<SDef("FNB", <<P, Q>>, Bin("sub", FA(<<FA(<<P>>)>>), Q))>>,
+         \* parameters in every argument position of nested calls, built-ins and subscripts
+         <<SDef("FNC", <<P, Q>>, Bin("sub", FB(<<Q, P>>), LI(1))), PV(FnCall("FNC", <<LI(1), LI(4)>>))>>,
+         <<SDef("FNE", <<P, Q>>, Bin("add", Arr("A", "A", "", <<P, Q>>), CallF("LEN", <<CallF("MID$", <<LStr(<<65, 66, 67, 68>>), P, Q>>)>>))),
+           SLet(Arr("A", "A", "", <<LI(1), LI(2)>>), LI(10)), SLet(P, LI(0)), SLet(Q, LI(0)), PV(FnCall("FNE", <<LI(1), LI(2)>>))>>,
          <<SLet(X, LI(5)), SLet(Y, LI(1))>>,
          <<PV(FA(<<LI(3)>>)), PV(X)>>,
          <<PV(FB(<<LI(1), LI(2)>>)), PV(Y)>>,
